@@ -549,6 +549,12 @@ func (fr *Frame) invoke(in ssa.Instruction, cc *ssa.CallCommon, recv Value, args
 	if h := p.eng.libHandler(key); h != nil {
 		return h(fr, in, st, append([]Value{recv}, args...), rt)
 	}
+	// contract on an interface method of the repository (assumed for every implementation)
+	if n, isNamed := types.Unalias(cc.Value.Type()).(*types.Named); isNamed && n.Obj().Pkg() != nil {
+		if c := p.eng.cons[n.Obj().Pkg().Path()+"."+n.Obj().Name()+"."+cc.Method.Name()]; c != nil {
+			return fr.callIfaceModular(in, cc, c, recv, args, st, rt)
+		}
+	}
 	if ok {
 		p.oblige(fr.siteName(in, "call")+".nilrecv", "nil", in.Pos(), st.Guard, Neq(iv.Ref, BVInt(0, 64)), "method call on nil interface")
 	}
@@ -1275,4 +1281,61 @@ func describe(v Value) string {
 		return x.T.Op
 	}
 	return strings.TrimPrefix(fmt.Sprintf("%T", v), "main.")
+}
+
+// callIfaceModular: a call through an interface method that has a contract (requires are checked,
+// ensures assumed for whatever implementation is behind the interface; listed as an assumption).
+func (fr *Frame) callIfaceModular(in ssa.Instruction, cc *ssa.CallCommon, c *Contract, recv Value, args []Value, st *State, rt types.Type) Value {
+	p := fr.p
+	name := cc.Method.Name()
+	ord := fr.callOrd(in)
+	sig := cc.Method.Type().(*types.Signature)
+	mkEnv := func(s, old *State) *CEnv {
+		env := &CEnv{p: p, pkg: cc.Method.Pkg(), fn: fr.fn, vars: map[string]cvar{}, st: s, old: old}
+		env.vars["recv"] = cvar{recv, cc.Value.Type()}
+		for i := 0; i < sig.Params().Len() && i < len(args); i++ {
+			prm := sig.Params().At(i)
+			if prm.Name() != "" && prm.Name() != "_" {
+				env.vars[prm.Name()] = cvar{coerceNil(args[i], prm.Type()), prm.Type()}
+			}
+			env.vars[fmt.Sprintf("arg%d", i)] = cvar{coerceNil(args[i], prm.Type()), prm.Type()}
+		}
+		return env
+	}
+	if iv, ok := recv.(IfaceV); ok {
+		p.oblige(fr.siteName(in, "call")+".nilrecv", "nil", in.Pos(), st.Guard, Neq(iv.Ref, BVInt(0, 64)), "method "+name+" called on a nil interface")
+	}
+	env := mkEnv(st, nil)
+	for k, cl := range c.Requires {
+		g := env.evalBool(cl.Expr, cl.Src)
+		p.oblige(fmt.Sprintf("%s%s/pre@%s#%d.%d", fr.prefix, p.eng.funcDisplayName(fr.fn), name, ord, k+1), "pre", in.Pos(), st.Guard, g, "precondition of "+name+": "+cl.Src)
+	}
+	old := st.clone()
+	st.HeapTop = p.bumpHeapTop(st.HeapTop, "heaptop")
+	res := fr.freshResult(st, rt, "r."+name)
+	env2 := mkEnv(st, old)
+	var vals []Value
+	switch x := res.(type) {
+	case TupleV:
+		vals = x
+	case nil:
+	default:
+		vals = []Value{x}
+	}
+	rs := sig.Results()
+	for i := 0; i < rs.Len() && i < len(vals); i++ {
+		env2.vars[fmt.Sprintf("result%d", i)] = cvar{vals[i], rs.At(i).Type()}
+		if rs.Len() == 1 {
+			env2.vars["result"] = cvar{vals[i], rs.At(i).Type()}
+		}
+		if nm := rs.At(i).Name(); nm != "" && nm != "_" {
+			env2.vars[nm] = cvar{vals[i], rs.At(i).Type()}
+		}
+	}
+	for _, cl := range append(append([]*Clause{}, c.Ensures...), c.Assumes...) {
+		g := env2.evalBool(cl.Expr, cl.Src)
+		p.assume(st.Guard, g)
+		p.assumedLib["assumed for every implementation of "+c.Func+": "+cl.Src] = true
+	}
+	return res
 }
